@@ -155,7 +155,7 @@ def run(ctx):
     # ---- R4.4
     sba = BA.of(SS)
     forks = sba.calls(anchors.FORK_START)
-    unl = sba.calls(r"helpers::unlink")
+    unl = sba.calls_deep(r"helpers::unlink", prog)
     common.mpt(ctx, "R4.4", "%s|stale-tmp-removed-before-fork" % SS.key, SS, [0], forks, unl, "helpers::unlink(tmp_name) precedes the fork", "a stale $3 from a killed run survives into the new build (and is taken for output)")
     if unl:
         a = op_local(SS.blocks[unl[0]]["term"]["args"][0])
@@ -169,7 +169,7 @@ def run(ctx):
         cs = [c for c in closure_sites(SS, RR.key)]
         ok = False
         if cs:
-            tl = set(sba.ref_chain(a))
+            tl = set(sba.ref_chain(a)) | backward_direct(SS, a, depth=40)[0]
             ok = any(op_local(o) in tl for o in cs[0][4] if op_local(o) is not None)
         ctx.ob("R4.4", "%s|same-tmp-recorded" % SS.key, ok, where=SS.span, detail="the temp name removed before the fork is the one record_new_state renames from")
 
